@@ -1,4 +1,4 @@
-P('C01', shards=16, fuzz=[('FuzzJSONLine', 60)],
+P('C01', shards=16, fuzz=[('FuzzJSONLine', 90)],
   technique='property-based testing (rapid attribute-tree and derivation-chain generators) + exhaustive enumeration of short strings / Unicode scalars + native fuzzing; oracle: third-party round trip through encoding/json into an ordered tree matched against an independent expectation model',
   text='Generated records (hostile messages/keys/values incl. invalid UTF-8 and 70 KiB strings, all value kinds, keyed/inline/empty groups, LogValuers, With/WithGroup chains, five levels, addSource on/off) are written by the real JSON handler; '
        'each must be exactly one Write of one newline-terminated valid-UTF-8 line that the encoding/json decoder reads as one object whose ordered members equal an independent model (time, level, source file:line, msg, nested attributes, '
